@@ -372,6 +372,7 @@ impl OpGen {
                     ev.ks.push(rng.random_range(0..self.nkeys) as i64);
                 }
                 ev.v = rng.random_range(10..20);
+                ev.n = (self.step.get() % 2) as i64;      // every second call uses the unsized borrowed form (Key only)
             }
             "insert_unique_unchecked" => {
                 // only legal for absent keys: search one, else degrade to insert
